@@ -1,0 +1,6 @@
+//go:build !verif
+
+package wal
+
+// verifSyncPoint is a no-op unless built with -tags verif (see verif_export.go).
+func verifSyncPoint(w *WAL, err error) {}
